@@ -173,7 +173,15 @@ func (r *receiveHandler) receiveResponse(rpc *rpcResponseMessage) (err error) {
 		return newCallNotFoundError(rpc.SeqNo())
 	}
 
-	callResponseCh <- rpc
+	select {
+	case callResponseCh <- rpc:
+	default:
+		// The one-slot buffer still holds an earlier reply to this
+		// call that nobody has picked up (the peer replied twice, and
+		// the caller may have stopped waiting): drop the surplus reply
+		// instead of blocking the receive loop for ever.
+		r.log.UnexpectedReply(rpc.SeqNo())
+	}
 	return nil
 }
 
